@@ -23,6 +23,7 @@ Norm(cfg, T0, v, omitPos) == LET T == Resolve(T0) IN
                                <<Norm(cfg, T.key, v.m[i][1], TRUE), Norm(cfg, T.val, v.m[i][2], TRUE)>>]]
     [] T.k = "struct" -> [i \in 1..Len(T.f) |-> IF T.f[i].enc THEN Norm(cfg, T.f[i].t, v[i], TRUE) ELSE Zero(T.f[i].t)]
     [] T.k \in {"jsonobj", "jsonarr"} -> NormJ(v)
+    [] T.k = "unsup" -> <<>>
 \* rep: the slice is written in the repeated-field form, where a nil element leaves no frame at all
 NormElems(cfg, E0, es, i, rep) == LET E == Resolve(E0) IN
   IF i > Len(es) THEN <<>>
@@ -49,6 +50,7 @@ Eq(T0, a, b) == LET T == Resolve(T0) IN
     [] T.k = "map" -> a.nil = b.nil /\ Len(a.m) = Len(b.m) /\ EqMap(T, a.m, b.m) /\ EqMap(T, b.m, a.m)
     [] T.k = "struct" -> \A i \in 1..Len(T.f) : Eq(T.f[i].t, a[i], b[i])
     [] T.k \in {"jsonobj", "jsonarr"} -> EqJ(a, b)
+    [] T.k = "unsup" -> TRUE
 EqMap(T, am, bm) == \A i \in 1..Len(am) : \E j \in 1..Len(bm) :
                         Eq(T.key, am[i][1], bm[j][1]) /\ Eq(T.val, am[i][2], bm[j][2])
 EqJ(a, b) ==
@@ -133,7 +135,7 @@ MatchRep(cfg, E, es, i, idx, b) ==
        /\ MatchRep(cfg, E, es, i + 1, idx, Drop(b, Len(p) + n))
 MatchFramed(cfg, T0, v, idx, b) == LET T == Resolve(T0) IN
   IF ~HasMap(T, 6) THEN b = Framed(cfg, T, v, idx)
-  ELSE IF T.k = "ptr" THEN MatchFramed(cfg, T.e, v.v, idx, b)
+  ELSE IF T.k = "ptr" THEN (IF v.nil THEN b = <<>> ELSE MatchFramed(cfg, T.e, v.v, idx, b))
   ELSE IF T.k = "map" /\ T.proto THEN MatchEntries(cfg, T, v.m, b, Tag(WTLength, idx))
   ELSE IF T.k = "slice" /\ IsRepeated(cfg, T) THEN MatchRep(cfg, T.e, v.e, 1, idx, b)
   ELSE LET w == WT(cfg, T)  t == Tag(w, idx) IN
